@@ -130,7 +130,7 @@ def classify_consumption(ctx, b, cs):
     known = alias_paths(b, r)
     # (a) `?`
     for e in b.exits():
-        if e['kind'] == 'err_prop' and e.get('call') is cs:
+        if e['kind'] == 'err_prop' and (e.get('call') is cs or cs in e.get('calls', ())):
             return ('try', True, '`?` propagates the error')
     # moved whole to _0
     if 0 in known and () in known[0]:
